@@ -3,6 +3,7 @@
   (helper lemmas: JSV/Proofs/MshNode.lean, MshRound.lean, MshFacts.lean).
 
   Proved here: boolean schemas round-trip; the emitted object never repeats a key; Extra round-trips;
+  a non-nil `$vocabulary` is always written, the empty map as `{}` (`marshal_keeps_empty_vocabulary`);
   the table obligations over the generated struct description.  The scalar fragment of the full round
   trip is `roundtrip_scalar_fragment`; the round trip of whole schema trees (every keyword; no nil child) is
   `roundtrip_tree` (helper lemmas: JSV/Proofs/MshTree.lean); what is missing for the full statement is listed
@@ -95,6 +96,41 @@ theorem marshal_extra_collision_rejected (st : Store) (rec : Go.MRec) (id : Node
   · rw [if_neg h1, if_pos]
     rw [List.any_eq_true]
     exact ⟨e, he, by simpa using hk⟩
+
+/-! ## `$vocabulary`: only nil is omitted
+
+  `Vocabulary map[string]bool` carries `omitempty`, which drops the EMPTY map as well as nil; but Resolve looks at the
+  PRESENCE of the keyword (a schema with `$vocabulary` is refused unless `$schema` is the 2020-12 meta-schema), so a
+  schema with an empty non-nil Vocabulary used to be written as a document that, read back, resolved although the
+  original is refused (finding D26).  Since /repo c50c33e MarshalJSON routes the field through its wrapper struct as an
+  `any`, like `enum` / `anyOf` / `oneOf`: only nil is omitted.  The table fact that pins the wrapper field is
+  `marshal_shadow_nil_only` below; the position of the member (after "oneOf", before "$id") is part of
+  `name_tables_agree` / `marshal_key_order`. -/
+
+/-- a non-nil Vocabulary is written, whatever its size: the output of MarshalJSON is an object with the member
+    `"$vocabulary"`, whose value is the map with its keys in ascending order -/
+theorem marshal_keeps_vocabulary (st : Store) (rec : Go.MRec) (id : NodeId) (n : Node) (vs : List (String × Bool))
+    (j : Json) (hn : st.get? id = some n) (hv : n.vocabulary = some vs) (h : Go.marshalStep st rec id = .ok j) :
+    ∃ ms, j = .obj ms ∧ ("$vocabulary", Json.obj (Go.sortKV (vs.map fun (k, b) => (k, Json.bool b)))) ∈ ms := by
+  rw [Go.marshalStep_eq, hn] at h
+  dsimp only at h
+  by_cases h1 : (!Go.marshalChecksOk n) = true
+  · rw [if_pos h1] at h; cases h
+  · rw [if_neg h1] at h
+    by_cases h2 : ((n.extra.getD []).any fun e => Go.structNames.contains e.1) = true
+    · rw [if_pos h2] at h; cases h
+    · rw [if_neg h2] at h
+      exact Go.marshalNode_vocab hv h
+
+/-- **`marshal_keeps_empty_vocabulary`**: for every node with a non-nil EMPTY Vocabulary, whatever else it contains,
+    MarshalJSON — one level (`Go.marshalStep`, any recursion) and the whole function (`Go.marshal`) — writes an object
+    that has the member `"$vocabulary": {}` -/
+theorem marshal_keeps_empty_vocabulary (st : Store) (id : NodeId) (n : Node) (j : Json)
+    (hn : st.get? id = some n) (hv : n.vocabulary = some []) :
+    (∀ rec : Go.MRec, Go.marshalStep st rec id = .ok j → ∃ ms, j = .obj ms ∧ ("$vocabulary", Json.obj []) ∈ ms) ∧
+    (Go.marshal st id = .ok j → ∃ ms, j = .obj ms ∧ ("$vocabulary", Json.obj []) ∈ ms) :=
+  ⟨fun rec h => marshal_keeps_vocabulary st rec id n [] j hn hv h,
+   fun h => marshal_keeps_vocabulary st _ id n [] j hn hv h⟩
 
 /-! ## Extra -/
 
@@ -244,9 +280,10 @@ instance (st : Store) (id : NodeId) : Decidable (TreeWF st id) :=
     store `st₂` — as a tree that is equal to the original up to the documented normal forms (`Go.TreeEq`, i.e.
     `Go.normNode` at every node: every keyword and every Extra entry kept;
     `required: []` ↦ nil (`Go.normReq`); Extra in ascending key order or nil if empty (`Go.normExtra`);
-    `examples: []`, `prefixItems: []`, `allOf: []` and every empty map ↦ nil (omitempty; `Go.normJL`, `Go.normList`,
-    `Go.normMap`, `Go.normKV`), while `anyOf: []` / `oneOf: []` / `enum: []` / `itemsArray: []` / `properties: {}` are
-    kept; every map in ascending key order; a nil list in DependencyStrings ↦ `[]` (`Go.normDepStrs`);
+    `examples: []`, `prefixItems: []`, `allOf: []` and every empty map other than `$vocabulary` ↦ nil (omitempty;
+    `Go.normJL`, `Go.normList`, `Go.normMap`, `Go.normKV`), while `anyOf: []` / `oneOf: []` / `enum: []` /
+    `itemsArray: []` / `properties: {}` / `$vocabulary: {}` are kept (`Go.normVocab`: a non-nil Vocabulary comes back
+    non-nil); every map in ascending key order; a nil list in DependencyStrings ↦ `[]` (`Go.normDepStrs`);
     "properties" in the order orderedProperties wrote it (`Go.propEntries`), PropertyOrder nil; every schema-valued
     keyword pointing to the rebuilt copy of its subtree — the boolean schemas `true` / `false` come back as
     `&Schema{}` / `&Schema{Not: &Schema{}}` whatever node was written as `true` / `false`),
@@ -283,6 +320,17 @@ theorem treeEq_root {st st' : Store} {d : Nat} {a b : NodeId} (h : Go.TreeEq st 
 /-- … and the schema-valued keywords have the same shape and keys, with equal subtrees below them (`Go.NodeRel`) -/
 theorem treeEq_children {st st' : Store} {d : Nat} {a b : NodeId} (h : Go.TreeEq st st' (d + 1) a b) :
     ∃ n n', st.get? a = some n ∧ st'.get? b = some n' ∧ Go.NodeRel (Go.TreeEq st st' d) (Go.normNode n) n' := h
+
+/-- `$vocabulary` has no nil-vs-empty normal form: the node read back has a Vocabulary exactly when the original has
+    one (the empty map comes back as the empty map), with the same entries in ascending key order -/
+theorem treeEq_vocabulary {st st' : Store} {d : Nat} {a b : NodeId} (h : Go.TreeEq st st' d a b) :
+    ∃ n n', st.get? a = some n ∧ st'.get? b = some n' ∧ n'.vocabulary = n.vocabulary.map Go.sortKV ∧
+      n'.vocabulary.isSome = n.vocabulary.isSome ∧ (n.vocabulary = some [] → n'.vocabulary = some []) := by
+  obtain ⟨n, n', ha, hb, e⟩ := treeEq_root h
+  have ev : n'.vocabulary = n.vocabulary.map Go.sortKV := congrArg (·.vocabulary) e
+  refine ⟨n, n', ha, hb, ev, ?_, fun h0 => ?_⟩
+  · rw [ev]; cases n.vocabulary <;> rfl
+  · rw [ev, h0]; rfl
 
 /-- equal trees marshal identically, whatever the fuel (the second half of `roundtrip_tree`) -/
 theorem treeEq_marshal {st st' : Store} (f d d' : Nat) (a b : NodeId)
@@ -382,9 +430,19 @@ theorem treeEq_validate_same_partial {d : Nat} {a b : NodeId} (env₁ env₂ : G
     results from the two that agree up to the order in which evaluated property names are listed — in particular the same
     verdict — with every amount of fuel, whatever `$ref` / `$dynamicRef` / `$id` / `$anchor` / `$dynamicAnchor` the tree
     contains.  Every normal form of `Go.normNode` is invisible to Resolve: the nil-vs-empty ones and the fields it does
-    not read (`Go.RIso.rnode_preNorm`; an empty `$vocabulary` / `$defs` coming back as nil only REMOVES a reason for
-    checkLocal to fail, which is why the statement is directional), the order of the maps (`resolve_perm_invariant`,
-    C14), the rebuilt children (`Go.RIso.resolve_rel`, the simulation of the resolver along a renaming of node ids).
+    not read (`Go.RIso.rnode_preNorm`; an empty `$defs` coming back as nil only REMOVES a reason for checkLocal to
+    fail), the order of the maps (`resolve_perm_invariant`, C14), the rebuilt children (`Go.RIso.resolve_rel`, the
+    simulation of the resolver along a renaming of node ids).
+    DIRECTION.  The statement is directional (original resolves ⇒ tree read back resolves).  Before /repo c50c33e the
+    converse was FALSE because of one normal form: an empty non-nil `$vocabulary` was dropped by `omitempty`, so the
+    tree read back lost a reason for checkLocal to fail (finding D26).  With the fix `$vocabulary` has no nil-vs-empty
+    normal form any more (`Go.normVocab`, `treeEq_vocabulary`, `marshal_keeps_empty_vocabulary`), and under the
+    hypothesis `hwf` (MarshalJSON's basicChecks pass at every node, so not both `$defs` and `definitions`) checkLocal
+    gives the same answer on a node and on its normal form.  What is left of the restriction does not come from a
+    normal form: (a) the original may share a schema object between two positions (a DAG: refused by checkStructure,
+    "do not form a tree") while the tree read back never does — the converse would need "checkStructure accepts `a`"
+    as the mirror image of `hcs`; (b) the simulation lemma `Go.RIso.resolve_rel` is itself directional (`DirRel`,
+    `RNode.localOk` is an implication), so the converse — expected to hold under (a) — is not proved here.
     PARTIAL in one respect: "checkStructure accepts `b`" — i.e. the tree read back is a tree, every JSON object having
     been decoded into a fresh `Schema` — is assumed, not derived from the model of UnmarshalJSON (for CloneSchemas the
     corresponding fact is proved: `C20.clone_is_tree`). -/
@@ -493,6 +551,20 @@ theorem name_tables_agree :
       Go.taggedNames.filter (fun k => !(Generated.marshalShadow.map Go.shadowName).contains k) := by
   refine ⟨Go.structNames_iff_knownKeys, ?_⟩
   rw [Go.emittedNames_eq]
+  decide
+
+/-- the wrapper struct of MarshalJSON shadows four tagged `omitempty` fields by an `any` — Enum, AnyOf, OneOf and (since
+    /repo c50c33e) Vocabulary — so that for these only nil is omitted, not the empty slice / map; this is what
+    `marshal_keeps_empty_vocabulary` and the `manyNonNil` / `enum` cases of the model rest on.  A revert of the fix
+    removes "Vocabulary:$vocabulary:any" from the generated table and breaks this obligation (and `name_tables_agree`). -/
+theorem marshal_shadow_nil_only :
+    "Vocabulary:$vocabulary:any" ∈ Generated.marshalShadow ∧
+    "Enum:enum:any" ∈ Generated.marshalShadow ∧ "AnyOf:anyOf:any" ∈ Generated.marshalShadow ∧
+    "OneOf:oneOf:any" ∈ Generated.marshalShadow ∧
+    (Generated.marshalShadow.filter fun s =>
+        Go.taggedNames.contains (Go.shadowName s) && Go.shadowType s == "any").map Go.shadowGo
+      = ["Enum", "AnyOf", "OneOf", "Vocabulary"] ∧
+    (Generated.schemaFields.filter fun f => f.1 == "Vocabulary") = [("Vocabulary", "map[string]bool", "$vocabulary", true)] := by
   decide
 
 /-- the `-`-tagged fields are the three union pairs plus Extra and PropertyOrder; the names they are
@@ -693,8 +765,8 @@ example : Go.marshal exTree2 0 = .ok (.obj [
     ("items", .arr [.obj [("minimum", .num 0)], .bool true]),
     ("enum", .arr [.num 1, .obj [("a", .null), ("b", .arr [])]]),
     ("anyOf", .arr []),
-    ("$defs", .obj [("p", .obj [("minimum", .num 0)]), ("q", .obj [("type", .str "null")])]),
     ("$vocabulary", .obj [("v1", .bool true), ("v2", .bool false)]),
+    ("$defs", .obj [("p", .obj [("minimum", .num 0)]), ("q", .obj [("type", .str "null")])]),
     ("default", .obj [("z", .num 0), ("a", .num 1)]),
     ("examples", .arr [.str "e"]),
     ("const", .null),
@@ -790,17 +862,41 @@ example : (match Go.resolve exRTEnv 1 0 "" with
     | _ => []) = [some true, some false, some false] := by
   decide +kernel
 
-/-- why `treeEq_resolves_partial` is DIRECTIONAL (Resolve of the original succeeds ⇒ Resolve of the tree read back
-    succeeds, not conversely): an EMPTY non-nil `Vocabulary` map beside a `$schema` other than 2020-12 is refused by
-    checkLocal, but `omitempty` does not write it, so the tree read back — a well-formed tree — resolves -/
+/-- an EMPTY non-nil `Vocabulary` map (finding D26, repaired in /repo c50c33e).  Beside a `$schema` other than 2020-12
+    it is refused by checkLocal.  `omitempty` used not to write it, so the tree read back — a well-formed tree — resolved
+    although the original is refused: this was the counterexample to the converse of `treeEq_resolves_partial`.  Now
+    MarshalJSON writes `"$vocabulary": {}` (`marshal_keeps_empty_vocabulary`), UnmarshalJSON reads it back as the
+    non-nil empty map — the round trip gives back `some []` exactly —, and Resolve refuses the tree read back as well -/
 example : TreeWF #[{ vocabulary := some [], type := "string" }] 0 ∧
+    Go.marshal #[{ vocabulary := some [], type := "string" }] 0 =
+      .ok (.obj [("type", .str "string"), ("$vocabulary", .obj [])]) ∧
+    Go.unmarshal (.obj [("type", .str "string"), ("$vocabulary", .obj [])]) #[] =
+      .ok (0, #[{ vocabulary := some [], type := "string" }]) ∧
     (Go.resolve { exRTEnv with st := #[{ vocabulary := some [], type := "string" }] } 1 0 "").verdict = some false ∧
     (match Go.marshal #[{ vocabulary := some [], type := "string" }] 0 with
       | .ok j => match Go.unmarshal j #[] with
         | .ok (id', st') => (Go.resolve { exRTEnv with st := st' } 1 id' "").verdict
         | _ => none
-      | _ => none) = some true := by
-  refine ⟨by decide, by decide +kernel, by decide +kernel⟩
+      | _ => none) = some false := by
+  refine ⟨by decide, by rfl, by rfl, by decide +kernel, by decide +kernel⟩
+
+/-- `marshal_keeps_empty_vocabulary` applied to that node … -/
+example (j : Json) (hj : Go.marshal #[{ vocabulary := some [], type := "string" }] 0 = .ok j) :
+    ∃ ms, j = .obj ms ∧ ("$vocabulary", Json.obj []) ∈ ms :=
+  (marshal_keeps_empty_vocabulary #[{ vocabulary := some [], type := "string" }] 0 _ j rfl rfl).2 hj
+
+/-- … and to a node that has nothing else: it is no longer written as `true` -/
+example : Go.marshal #[{ vocabulary := some [] }] 0 = .ok (.obj [("$vocabulary", .obj [])]) ∧
+    Go.unmarshal (.obj [("$vocabulary", .obj [])]) #[] = .ok (0, #[{ vocabulary := some [] }]) ∧
+    Go.marshal #[{ vocabulary := none }] 0 = .ok (.bool true) := ⟨by rfl, by rfl, by rfl⟩
+
+/-- `treeEq_vocabulary` through `roundtrip_tree`: the root read back has `some []` -/
+example (st₂ : Store) (j : Json) (hj : Go.marshal #[{ vocabulary := some [], type := "string" }] 0 = .ok j) :
+    ∃ id' st₂' n', Go.unmarshal j st₂ = .ok (id', st₂') ∧ st₂'.get? id' = some n' ∧ n'.vocabulary = some [] := by
+  obtain ⟨id', st₂', hu, hte, -⟩ := roundtrip_tree _ 0 j st₂ (by decide) hj
+  obtain ⟨n, n', ha, hb, -, -, h0⟩ := treeEq_vocabulary hte
+  cases ha
+  exact ⟨id', st₂', n', hu, hb, h0 rfl⟩
 
 /-! why the results are compared up to the ORDER of the evaluated-property list (`Inv.OutSim`) and not by equality: the
     Spec lists evaluated property names in the order the keywords produce them, and `dependentSchemas` — a Go map, written
